@@ -317,6 +317,23 @@ def run(index, rep, tier):
         fam = [f for f in index.functions_in_module(TREE.rsplit(".", 1)[0]) if f.cls is not None and f.cls.name == "Tree" and (f.name.startswith(("prune_taxa", "retain_taxa", "extract_tree_with", "prune_leaves", "prune_nodes")))]
         rep.floor("R08.10", "selection arguments of the prune / retain / extract family", 8, one_pass_iterable_rule(index, rep, "R08.10", fam, ("taxa", "labels", "nodes")))
 
+    # ---- R08.11 a declined suppression stays declined
+    with rep.section("R08.11"):
+        rep.rule("R08.11", "a declined suppression stays declined: a restructuring method that takes both suppress_unifurcations and update_bipartitions hands its suppress_unifurcations to the re-encode it triggers (encode_bipartitions suppresses by default, so an unforwarded flag is overridden exactly when the caller also asks for an update)")
+        nup = 0
+        for m in (TREE.rsplit(".", 1)[0], NODE.rsplit(".", 1)[0]):
+            for f in index.functions_in_module(m):
+                if "suppress_unifurcations" not in f.params or "update_bipartitions" not in f.params:
+                    continue
+                for c in calls_in(f.node):
+                    if call_name(c) not in ("update_bipartitions", "encode_bipartitions"):
+                        continue
+                    nup += 1
+                    kw = get_kwarg(c, "suppress_unifurcations")
+                    rep.check(kw is not None and (norm(kw) == "suppress_unifurcations" or (isinstance(kw, ast.Constant) and kw.value is False)), "R08.11", f.qualname, "re-encode without the caller's suppress_unifurcations", fn_where(f, c), "%s forwards suppress_unifurcations to %s" % (f.name, call_name(c)),
+                              "%s calls `%s` without passing its own suppress_unifurcations on: encode_bipartitions suppresses unifurcations by default, so suppress_unifurcations=False is honoured with update_bipartitions=False and silently overridden with update_bipartitions=True - the node left with one child is merged away after all, and the in-place result differs between the two settings" % (f.qualname, norm(c)[:50]))
+        rep.floor("R08.11", "re-encodes in methods taking both options", 5, nup)
+
 
 def _bool_leaves(t):
     if isinstance(t, ast.BoolOp):
